@@ -9,6 +9,13 @@ NOTE_COMMON = ("Trusted: Lean 4.33 kernel + {propext, Classical.choice, Quot.sou
                "(op dispatch, float-vs-rational tolerance 1e-9, exception => exc); frozen Spec tables. Python/NumPy arithmetic is "
                "modelled with exact rationals, not verified. ")
 CHECKS = {
+ "C01": ("Lean theorems for every charge pattern: kappa = -1 iff delta-max = 0; otherwise kappa is delta/delta-max with ratios in (1,1.1) "
+         "reported as 1; kappa >= 0; kappa <= 1 iff delta < 1.1*delta-max; every member of the documented family and the permutant returned "
+         "by get_deltaMax(True) has kappa in [0,1] (=1 for the permutant). The full range claim is FALSE of the pinned code: witness theorem "
+         "kappa(KEEEEK pattern) = 98/53, recorded as known finding F-C01-1 with a root-cause predicate. Correspondence: all patterns <= 7/9, "
+         "the exhaustive-search arg-max arrangement of every composition <= 9/12 residues fed to the real get_kappa, random sequences.",
+         "Known finding F-C01-1 suppresses only inputs on which delta, delta-max (=documented family max) and the clamp all behave as specified.",
+         "Lean 4 proof (order arithmetic over Q, on top of C02/C03 theorems) + witness by decide + differential correspondence"),
  "C02": ("Lean theorems for every charge pattern of every length: the deltaForm accumulation loop equals the mean squared deviation of "
          "the sliding-blob sigmas (windows defined structurally), blob count N-w+1 with the last blob ending at the last residue, "
          "short sequences contribute 0, delta >= 0, delta depends only on charge classes; the charge table is regenerated from the "
